@@ -1,6 +1,7 @@
 import GfaModel.Regex
 import GfaModel.Cigar
 import GfaModel.CigarText
+import GfaModel.Geometry
 /- Line protocol of the model driver: `op US arg US arg …` → one reply line. -/
 namespace Gfa
 namespace Driver
@@ -43,6 +44,24 @@ def parseLink (f fo t too o : List Char) : Option Link :=
 def printLink (l : Link) : String :=
   str (l.frm.toList ++ ['\t', l.fo.toChar, '\t'] ++ l.to.toList ++ ['\t', l.too.toChar, '\t'] ++ l.ovl.print)
 
+def keyName : Key → String
+  | .dovL => "dovetails_L" | .dovR => "dovetails_R" | .toContained => "edges_to_contained"
+  | .toContainers => "edges_to_containers" | .internals => "internals" | .gapsL => "gaps_L" | .gapsR => "gaps_R"
+
+def sortStrs (l : List String) : List String := (l.toArray.qsort (· < ·)).toList
+
+def geoEdge (o1 : Orient) (n1 b1 e1 : Nat) (o2 : Orient) (n2 b2 e2 : Nat) : String :=
+  let pb1 := Pos.mk b1 n1; let pe1 := Pos.mk e1 n1; let pb2 := Pos.mk b2 n2; let pe2 := Pos.mk e2 n2
+  match substringType pb1 pe1, substringType pb2 pe2 with
+  | .ok (st1, _), .ok (st2, _) =>
+    let k1 := keyName (refkey true o1 o2 st1 st2)
+    let k2 := keyName (refkey false o1 o2 st1 st2)
+    let t := match alignmentType o1 o2 st1 st2 with | .C => "C" | .L => "L" | .I => "I"
+    let f := match isSid1From (segmentRole pb1 pe1 o1) (segmentRole pb2 pe2 o2) with
+      | .ok true => "1" | .ok false => "0" | .error _ => "err"
+    s!"ok keys={",".intercalate (sortStrs [k1, k2])} type={t} from={f}"
+  | _, _ => "err"
+
 /-- stateless commands -/
 def pure? (cmd : String) (args : List (List Char)) : Option String :=
   match cmd, args with
@@ -67,6 +86,13 @@ def pure? (cmd : String) (args : List (List Char)) : Option String :=
   | "link.compat", [f, fo, t, too, o, f', fo', t', too', o'] =>
     some (match parseLink f fo t too o, parseLink f' fo' t' too' o' with
     | some a, some b => s!"ok {b2s (a.compatible b.frm b.fo b.to b.too b.ovl)}"
+    | _, _ => "err")
+  | "geo.edge", [o1, n1, b1, e1, o2, n2, b2, e2] =>
+    some (match o1, o2 with
+    | [c1], [c2] =>
+      match Orient.ofChar? c1, Orient.ofChar? c2, natOf? n1, natOf? b1, natOf? e1, natOf? n2, natOf? b2, natOf? e2 with
+      | some x, some y, some n1, some b1, some e1, some n2, some b2, some e2 => geoEdge x n1 b1 e1 y n2 b2 e2
+      | _, _, _, _, _, _, _, _ => "err"
     | _, _ => "err")
   | _, _ => none
 
